@@ -49,26 +49,42 @@ TYPE_DECLS = {
     "SelfErr": "type SelfErr struct {\n\t*SelfErr\n\terror\n\tCode int\n}",
     "DeepErr": "type DeepErr struct {\n\tMyErr\n\tMore string\n}",
     "Mono": "type Mono[T any] struct {\n\tV T\n\tL []T\n}",
+    # generic structs whose field list is not just "fields typed by the parameters": an embedded error / struct, an
+    # unexported or json:"-" field BEFORE (or after) the field typed by the type parameter
+    "GenErr": "type GenErr[T any] struct {\n\terror\n\tPayload T `json:\"payload\"`\n}",
+    "GenErrLast": "type GenErrLast[T any] struct {\n\tPayload T `json:\"payload\"`\n\terror\n}",
+    "GenEmb": "type GenEmb[T any] struct {\n\tPlain\n\tV T\n}",
+    "GenSkip": "type GenSkip[T any] struct {\n\thidden int\n\tSkipped string `json:\"-\"`\n\tV T `json:\"v\"`\n}",
+    "HasGenErr": "type HasGenErr struct {\n\tJob string `json:\"job\" validate:\"required\"`\n\tLast GenErr[string] `json:\"last\"`\n}",
+    # constants used as the length of a fixed array (untyped, typed, computed from another constant, iota)
+    "ArrLen": "const ArrLen = 4",
+    "TypedLen": "const TypedLen int = 3",
+    "ExprLen": "const ExprLen = 2 * ArrLen",
+    "IotaLen": "const (\n\tiotaZero = iota\n\tIotaLen\n\tiotaTwo\n)",
+    "ConstArr": "type ConstArr struct {\n\tA [ArrLen]int `json:\"a\"`\n\tB [(TypedLen)]string `json:\"b\"`\n\tC [ExprLen]byte `json:\"c\"`\n"
+                "\tD [2 * ArrLen]Plain `json:\"d\"`\n\tE [IotaLen]*Plain `json:\"e\"`\n\tF [3]int `json:\"f\"`\n}",
     "Tagged": None,  # built with a random validator tag
 }
 DEPS = {"DeepErr": ["MyErr"], "MutA": ["MutB"], "MutB": ["MutA"], "Emb": ["Plain", "SelfRec", "lower"], "Deep": ["Plain"],
-        "AliasA": ["AliasB"], "NamedSlice": ["Plain"]}
+        "AliasA": ["AliasB"], "NamedSlice": ["Plain"], "GenEmb": ["Plain"], "HasGenErr": ["GenErr"], "ExprLen": ["ArrLen"],
+        "ConstArr": ["ArrLen", "TypedLen", "ExprLen", "IotaLen", "Plain"], "Tagged": ["Color"]}
 
 HOSTILE_TAGS = ["oneof=fixed 'wont fix", "oneof='a b' c", "oneof='", "oneof=''", "enum='", "min=abc", "max=", "len=-1", "oneof=", "gt=", "lte=1e400", "uniqueItems=maybe", "enum=|", ",,,",
                 "required,,min", "max=99999999999999999999999", "minItems=x", "maxItems=-3", "pattern=(", "len=1.5",
                 "oneof=a b c", "gte=0,lte=10", "email", "dive,required", "min=\\", "required,min=1,max=0"]
 
-BODY_TYPES = ["Mono[Plain]", "Mono[[]int]", "Mono[Mono[int]]", "Mono[*Plain]", "Mono[map[string]Plain]", "Plain", "Box[int]", "Pair[string, Plain]", "Inline", "WithFunc", "WithChan", "WithIface", "WithArray",
+BODY_TYPES = ["GenErr[string]", "GenErr[Plain]", "GenErrLast[int]", "GenEmb[int]", "GenSkip[string]", "HasGenErr",
+              "[ArrLen]Plain", "[ExprLen]int", "ConstArr", "Mono[Plain]", "Mono[[]int]", "Mono[Mono[int]]", "Mono[*Plain]", "Mono[map[string]Plain]", "Plain", "Box[int]", "Pair[string, Plain]", "Inline", "WithFunc", "WithChan", "WithIface", "WithArray",
               "MutA", "SelfRec", "Deep", "Emb", "NamedSlice", "NamedMap", "[]Plain", "*Plain", "map[string]Plain",
               "[]*[]Plain", "Iface", "Tagged", "[4]Plain", "map[int]Plain", "any", "struct{ X int }", "FuncType",
               "[]byte", "time.Time", "time.Duration", "*time.Time"]
 SCALAR_TYPES = ["string", "int", "Color", "Level", "Ratio", "Flag", "EmptyEnum", "AliasA", "Named", "[]string", "[]Color",
                 "*int", "uint8", "float32", "complex128", "rune", "byte", "uintptr", "[]int", "*Color", "[2]string",
-                "time.Time", "Plain", "any", "error", "map[string]string", "**string", "[]*int"]
-RET_TYPES = ["Mono[Plain]", "Mono[Color]", "Box[Plain]", "", "Plain", "*Plain", "[]Plain", "Box[string]", "MutA", "SelfRec", "map[string]Plain", "Color", "[]Color",
+                "time.Time", "Plain", "any", "error", "map[string]string", "**string", "[]*int", "[ArrLen]string", "[IotaLen]int"]
+RET_TYPES = ["GenErr[string]", "GenSkip[Plain]", "HasGenErr", "[TypedLen]int", "ConstArr", "Mono[Plain]", "Mono[Color]", "Box[Plain]", "", "Plain", "*Plain", "[]Plain", "Box[string]", "MutA", "SelfRec", "map[string]Plain", "Color", "[]Color",
              "string", "int", "any", "Iface", "Emb", "Deep", "NamedSlice", "*[]Plain", "[]byte", "time.Time", "Tagged",
              "Inline", "WithIface", "chan int", "func()", "[3]int", "struct{ A int }"]
-ERR_TYPES = ["error", "error", "error", "MyErr", "*MyErr", "NotErr", "Plain", "SelfErr", "DeepErr"]
+ERR_TYPES = ["error", "error", "error", "MyErr", "*MyErr", "NotErr", "Plain", "SelfErr", "DeepErr", "GenErr[string]"]
 
 MALFORMED_ANN = [
     "// @Security(sec1, {scopes: [null]})", "// @Security(sec1, {scopes: [[\"a\"]]})", "// @Security(sec1, {scopes: {}})",
@@ -83,6 +99,87 @@ MALFORMED_ANN = [
     "// @FormField(f, {name: \"\\u0000\"})", "// @Security(sec1, {scopes:[\"a\\\"b\"]})", "// @AdvancedSecurity(x)",
     "// @Unknown(thing)", "// @Query(q, {name:\"a\",name:\"b\"})", "// @Path()", "// @Query(,)",
 ]
+
+# Annotation lines that are wrong in TWO ways at once (a properties object the annotation does not accept or does not
+# know, on top of a bad / odd / valid value): a validator that stops at the first finding must still stop the run.
+ODD_PROPS = ["{bogus: true}", "{name: [1]}"]
+ODD_VALUES = {
+    "Method": ["GET", "Get", "get", "LIST", "HEAD", "OPTIONS"],
+    "Route": ["/one/{id}", "one", "/x/{", "/{a}/{a}"],
+    "Path": ["id", "nope"],
+    "Query": ["q", "nope"],
+    "Response": ["200", "abc", "99"],
+    "ErrorResponse": ["400", "abc"],
+    "Security": ["sec1", "ghost"],
+    "Tag": ["T"],
+    "Hidden": [""],
+}
+DOUBLE_ANN = ["// @%s(%s%s%s)" % (n, v, ", " if v else "", pr) for n, vals in ODD_VALUES.items() for v in vals for pr in ODD_PROPS]
+
+
+def ann_name(line):
+    m = re.match(r"\s*//\s*@(\w+)", line)
+    return m.group(1) if m else None
+
+
+def place_annotation(lines, ann, mode, rng=None):
+    """mode 'add': the line joins the comment block (the valid annotation of the same name, if any, stays);
+    mode 'replace': the line takes the place of the annotation of the same name (falls back to 'add' when the block
+    has none), so that the malformed line is the ONLY annotation of its kind on the entity."""
+    lines = list(lines)
+    if mode == "replace":
+        same = [i for i, l in enumerate(lines) if ann_name(l) == ann_name(ann) and ann_name(ann)]
+        if same:
+            lines[same[0]] = ann
+            return lines, "replace"
+    pos = rng.randrange(len(lines) + 1) if rng else len(lines)
+    lines.insert(pos, ann)
+    return lines, "add"
+
+
+# ---------------------------------------------------------------- package layout
+
+LAYOUTS = ["single", "split", "scatter"]
+
+
+def go_file(body, runtime=False):
+    imports = ['"github.com/gopher-fleece/runtime"'] if runtime else []
+    if "context." in body:
+        imports.append('"context"')
+    if re.search(r"(?<![A-Za-z])time\.", body):
+        imports.append('"time"')
+    head = "package hctl\n\n"
+    if imports:
+        head += "import (\n%s\n)\n\n" % "\n".join("\t" + i for i in imports)
+    return head + body.rstrip("\n") + "\n"
+
+
+def lay_out(layout, ctrl, decls, methods):
+    """ctrl: controller declaration text; decls: [(name, text)]; methods: [text].  Returns (c.go, {other file: text}).
+    single  - everything in c.go
+    split   - controller and routes in c.go, every other declaration in decls.go
+    scatter - every declaration (type, enum, constant) in a file of its own"""
+    if layout == "single" or not decls:
+        return go_file("\n\n".join([ctrl] + [t for _, t in decls] + methods), True), {}
+    main = go_file("\n\n".join([ctrl] + methods), True)
+    if layout == "split":
+        return main, {"decls.go": go_file("\n\n".join(t for _, t in decls))}
+    return main, dict(("%s_d.go" % n.lower(), go_file(t)) for n, t in decls)
+
+
+def closure(names):
+    todo, seen = list(names), set()
+    while todo:
+        n = todo.pop()
+        if n in seen:
+            continue
+        seen.add(n)
+        todo += DEPS.get(n, [])
+    return sorted(seen)
+
+
+def used_names(t):
+    return set(n for n in TYPE_DECLS if re.search(r"\b%s\b" % re.escape(n), t))
 
 
 SAFE_SCALARS = ["string", "int", "Color", "Level", "Named", "*int", "float32", "[]string"]
@@ -161,43 +258,29 @@ def hostile_file(rng, k):
             lines.append("//")
         if rng.random() < (0.35 if not mild else 0.0) or (mild and budget[0] > 0 and rng.random() < 0.15):
             budget[0] -= 1
-            pos = rng.randrange(len(lines) + 1)
-            lines.insert(pos, rng.choice(MALFORMED_ANN))
+            lines, _ = place_annotation(lines, rng.choice(MALFORMED_ANN + DOUBLE_ANN), rng.choice(["add", "replace"]), rng)
         if rng.random() < 0.2:
             lines.append("// @Security(%s)" % rng.choice(["sec1", "ghost", "sec1, {scopes:[\"a\"]}"]))
         if rng.random() < 0.2:
             lines.append("// @ErrorResponse(%s) x" % rng.choice(["400", "404", "500", "999"]))
         methods.append("\n".join(lines) + "\nfunc (c *HCtl%d) M%d(%s)%s {\n%s\n}" % (k, i, ", ".join(params), sig, body))
-    # type declarations with their dependencies
-    todo, decls = list(used), []
-    seen = set()
-    while todo:
-        n = todo.pop()
-        if n in seen:
-            continue
-        seen.add(n)
-        todo += DEPS.get(n, [])
-    for n in sorted(seen):
+    # declarations with their dependencies
+    decls = []
+    for n in closure(used):
         if n == "Tagged":
             tags = [rng.choice(HOSTILE_TAGS) for _ in range(3)] if not mild else \
                 rng.sample([rng.choice(HOSTILE_TAGS), "required", "max=5"], 3)
-            decls.append("type Tagged struct {\n\tS string `json:\"s\" validate:%s`\n\tN int `json:\"-\" validate:%s`\n"
-                         "\tL []string `validate:%s`\n\tE Color `validate:\"oneof=red blue\"`\n}" %
-                         tuple(json.dumps(t) for t in tags))
-            if "Color" not in seen:
-                decls.append(TYPE_DECLS["Color"])
+            decls.append((n, "type Tagged struct {\n\tS string `json:\"s\" validate:%s`\n\tN int `json:\"-\" validate:%s`\n"
+                             "\tL []string `validate:%s`\n\tE Color `validate:\"oneof=red blue\"`\n}" %
+                          tuple(json.dumps(t) for t in tags)))
         else:
-            decls.append(TYPE_DECLS[n])
+            decls.append((n, TYPE_DECLS[n]))
     ctrl = ["// @Tag(H%d)" % k, "// @Route(/h%d)" % k]
     if rng.random() < 0.2 and not mild:
-        ctrl.insert(rng.randrange(len(ctrl) + 1), rng.choice(MALFORMED_ANN))
-    src = "\n\n".join(["\n".join(ctrl) + "\ntype HCtl%d struct {\n\truntime.GleeceController\n}" % k] + decls + methods)
-    imports = ['"github.com/gopher-fleece/runtime"']
-    if "context." in src:
-        imports.append('"context"')
-    if re.search(r"(?<![A-Za-z])time\.", src):
-        imports.append('"time"')
-    return "package hctl\n\nimport (\n%s\n)\n\n%s\n" % ("\n".join("\t" + i for i in imports), src)
+        ctrl, _ = place_annotation(ctrl, rng.choice(MALFORMED_ANN + DOUBLE_ANN), rng.choice(["add", "replace"]), rng)
+    layout = rng.choice(["single", "single", "single", "split", "scatter"])
+    src, files = lay_out(layout, "\n".join(ctrl) + "\ntype HCtl%d struct {\n\truntime.GleeceController\n}" % k, decls, methods)
+    return src, files, layout
 
 
 def hostile_config(rng, base):
@@ -265,68 +348,124 @@ def sweep_projects(rng, start, tier):
     return out
 
 
-def single_use_file(k, role, t):
-    """A well-formed project with ONE hostile element: type t used as body / result / error type."""
-    used = set()
-    for name in TYPE_DECLS:
-        if re.search(r"\b%s\b" % re.escape(name), t):
-            used.add(name)
-    todo, seen = list(used), set()
-    while todo:
-        n = todo.pop()
-        if n in seen:
-            continue
-        seen.add(n)
-        todo += DEPS.get(n, [])
+def single_use_file(k, role, t, layout="single"):
+    """A well-formed project with ONE hostile element: type t used as body / result / error type.
+    Returns (c.go, {other file: text})."""
     decls = []
-    for n in sorted(seen):
+    for n in closure(used_names(t)):
         if n == "Tagged":
-            decls.append("type Tagged struct {\n\tS string `json:\"s\" validate:\"required\"`\n}")
+            decls.append((n, "type Tagged struct {\n\tS string `json:\"s\" validate:\"required\"`\n}"))
         else:
-            decls.append(TYPE_DECLS[n])
+            decls.append((n, TYPE_DECLS[n]))
     if role == "body":
         sig, ann, verb = "(b %s) error" % t, "// @Body(b)\n", "POST"
     elif role == "ret":
         sig, ann, verb = "() (%s, error)" % t, "", "GET"
     else:
         sig, ann, verb = "() (string, %s)" % t, "", "GET"
-    src = ("// @Tag(U%d)\n// @Route(/u%d)\ntype HCtl%d struct {\n\truntime.GleeceController\n}\n\n%s\n\n"
-           "// One\n// @Method(%s)\n// @Route(/one)\n%sfunc (c *HCtl%d) One%s {\n\tpanic(\"x\")\n}\n"
-           % (k, k, k, "\n\n".join(decls), verb, ann, k, sig))
-    imports = ['"github.com/gopher-fleece/runtime"']
-    if re.search(r"(?<![A-Za-z])time\.", src):
-        imports.append('"time"')
-    return "package hctl\n\nimport (\n%s\n)\n\n%s" % ("\n".join("\t" + i for i in imports), src)
+    ctrl = "// @Tag(U%d)\n// @Route(/u%d)\ntype HCtl%d struct {\n\truntime.GleeceController\n}" % (k, k, k)
+    method = "// One\n// @Method(%s)\n// @Route(/one)\n%sfunc (c *HCtl%d) One%s {\n\tpanic(\"x\")\n}" % (verb, ann, k, sig)
+    return lay_out(layout, ctrl, decls, [method])
+
+
+def annotation_file(k, ann, on_ctrl, mode):
+    ctrl, _ = place_annotation(["// @Tag(A%d)" % k, "// @Route(/a%d)" % k], ann, mode) if on_ctrl else \
+        (["// @Tag(A%d)" % k, "// @Route(/a%d)" % k], None)
+    route = ["// One", "// @Method(GET)", "// @Route(/one/{id})", "// @Path(id)", "// @Query(q)"]
+    if not on_ctrl:
+        route, _ = place_annotation(route, ann, mode)
+    return go_file("%s\ntype HCtl%d struct {\n\truntime.GleeceController\n}\n\n%s\n"
+                   "func (c *HCtl%d) One(id string, q int) (string, error) {\n\tpanic(\"x\")\n}"
+                   % ("\n".join(ctrl), k, "\n".join(route), k), True)
 
 
 def annotation_sweep_projects(rng, start, tier):
-    """Every malformed annotation line once, alone, on an otherwise well-formed route (and on the controller)."""
+    """Every malformed annotation line once, alone, on an otherwise well-formed route (and on the controller):
+    ADDED to the comment block, and - when the block has an annotation of the same name - also REPLACING it, so that
+    the malformed line is the only annotation of its kind (an added line can be masked by the valid one that stays).
+    The doubly-wrong lines (odd value + odd properties) go where they bite: replacing when possible, else added."""
     out = []
-    lines = list(MALFORMED_ANN)
-    for i, ann in enumerate(lines):
+    route_names = {"Method", "Route", "Path", "Query"}
+    ctrl_names = {"Tag", "Route"}
+    plan = []
+    for i, ann in enumerate(MALFORMED_ANN):
+        plan.append((ann, i % 5 == 4, "add"))
+        if ann_name(ann) in route_names:
+            plan.append((ann, False, "replace"))
+        if ann_name(ann) in ctrl_names:
+            plan.append((ann, True, "replace"))
+    doubles = list(DOUBLE_ANN)
+    if tier == "quick":
+        # every (annotation, value) with one of the two property objects; the thorough tier takes both
+        which = [rng.randrange(len(ODD_PROPS)) for _ in range(len(doubles) // len(ODD_PROPS))]
+        doubles = [a for j, a in enumerate(doubles) if which[j // len(ODD_PROPS)] == j % len(ODD_PROPS)]
+    for ann in doubles:
+        n = ann_name(ann)
+        plan.append((ann, False, "replace" if n in route_names else "add"))
+        if n in ctrl_names:
+            plan.append((ann, True, "replace"))
+        if tier != "quick" and n in route_names:
+            plan.append((ann, False, "add"))
+    for ann, on_ctrl, mode in plan:
         k = start + len(out)
-        on_ctrl = (i % 5 == 4)
-        src = ("package hctl\n\nimport (\n\t\"github.com/gopher-fleece/runtime\"\n)\n\n// @Tag(A%d)\n// @Route(/a%d)\n%s"
-               "type HCtl%d struct {\n\truntime.GleeceController\n}\n\n// One\n// @Method(GET)\n// @Route(/one/{id})\n"
-               "// @Path(id)\n// @Query(q)\n%sfunc (c *HCtl%d) One(id string, q int) (string, error) {\n\tpanic(\"x\")\n}\n"
-               % (k, k, (ann + "\n") if on_ctrl else "", k, "" if on_ctrl else (ann + "\n"), k))
-        out.append({"source": src, "k": k, "config_kind": "valid", "single_annotation": ann,
+        out.append({"source": annotation_file(k, ann, on_ctrl, mode), "k": k, "config_kind": "valid",
+                    "single_annotation": [ann, "controller" if on_ctrl else "route", mode],
                     "command": ["generate", "spec-and-routes"], "force_valid_config": True})
     return out
 
 
-def type_sweep_projects(rng, start, tier):
-    """Every hostile type once as body, result and error type, each alone in a well-formed project."""
-    uses = [("err", t) for t in sorted(set(ERR_TYPES))] + \
-           [(r, t) for r, pool in (("body", BODY_TYPES), ("ret", RET_TYPES)) for t in pool if t and "Mono" in t]
-    rest = [("body", t) for t in BODY_TYPES if "Mono" not in t] + [("ret", t) for t in RET_TYPES if t and "Mono" not in t]
-    rng.shuffle(rest)
-    uses += rest if tier != "quick" else rest[:12]
+PARAM_TAGS = ["oneof=red blue", "gt=1", "required", "oneof='", "min=abc", "email", "len=1.5", "uniqueItems=maybe", ",,,",
+              "dive,required", "required,min=1,max=0", "enum=|", "pattern=("]
+
+
+def param_sweep_projects(rng, start, tier):
+    """Every validator tag on a parameter of every kind (string / int / enum / []string) at every location
+    (path / query / header / form), for both OpenAPI versions: one project per (tag, location, version)."""
+    combos = [(tag, loc, v) for tag in PARAM_TAGS for loc in ("path", "query", "header", "form") for v in ("3.0.0", "3.1.0")]
+    rng.shuffle(combos)
+    if tier == "quick":
+        # all four locations x both versions for the first tags of the shuffled list, the rest sampled
+        combos = combos[:48]
+    ann = {"path": "Path", "query": "Query", "header": "Header", "form": "FormField"}
     out = []
-    for role, t in uses:
+    for (tag, loc, v) in combos:
         k = start + len(out)
-        out.append({"source": single_use_file(k, role, t), "k": k, "config_kind": "valid", "single_use": [role, t],
+        routes = []
+        for i, t in enumerate(["string", "int", "Color"] + (["[]string"] if loc == "query" else [])):
+            url = "/r%d/{x}" % i if loc == "path" else "/r%d" % i
+            routes.append("// R%d\n// @Method(POST)\n// @Route(%s)\n// @%s(x, {validate: %s})\nfunc (c *HCtl%d) R%d(x %s) error {\n\tpanic(\"x\")\n}"
+                          % (i, url, ann[loc], json.dumps(tag), k, i, t))
+        src = ("package hctl\n\nimport (\n\t\"github.com/gopher-fleece/runtime\"\n)\n\n// @Tag(P%d)\n// @Route(/p%d)\n"
+               "type HCtl%d struct {\n\truntime.GleeceController\n}\n\n%s\n\n%s\n" % (k, k, k, TYPE_DECLS["Color"], "\n\n".join(routes)))
+        out.append({"source": src, "k": k, "config_kind": "valid", "param_sweep": [tag, loc, v], "openapi": v,
                     "command": ["generate", "spec-and-routes"], "force_valid_config": True})
+    return out
+
+
+def always_swept(t):
+    """Shapes the quick tier sweeps in full: instantiated generics of the Mono/Gen* families (and their users), and
+    fixed arrays whose length is a named constant."""
+    return bool(re.search(r"Mono|Gen|Len\b|ConstArr", t))
+
+
+def type_sweep_projects(rng, start, tier):
+    """Every hostile type once as body, result and error type, each alone in a well-formed project; in one file and
+    with every declaration (type, enum, constant) in a file of its own (thorough: also controller / declarations)."""
+    core = [("err", t) for t in sorted(set(ERR_TYPES))] + \
+           [(r, t) for r, pool in (("body", BODY_TYPES), ("ret", RET_TYPES)) for t in pool if t and always_swept(t)]
+    rest = [("body", t) for t in BODY_TYPES if not always_swept(t)] + [("ret", t) for t in RET_TYPES if t and not always_swept(t)]
+    rng.shuffle(rest)
+    uses = [(r, t, lay) for r, t in core for lay in (("single", "scatter") if tier == "quick" else LAYOUTS)]
+    if tier == "quick":
+        uses += [(r, t, LAYOUTS[j % len(LAYOUTS)]) for j, (r, t) in enumerate(rest[:12])]
+    else:
+        uses += [(r, t, lay) for r, t in rest for lay in LAYOUTS]
+    out = []
+    for role, t, lay in uses:
+        k = start + len(out)
+        src, files = single_use_file(k, role, t, lay)
+        out.append({"source": src, "files": files, "layout": lay if files else "single", "k": k, "config_kind": "valid",
+                    "single_use": [role, t], "command": ["generate", "spec-and-routes"], "force_valid_config": True})
     return out
 
 
@@ -366,10 +505,12 @@ def main():
         projects = [rp["input"]]
     else:
         for k in range(nproj):
-            projects.append({"source": hostile_file(rng, k), "k": k})
+            src, files, lay = hostile_file(rng, k)
+            projects.append({"source": src, "files": files, "layout": lay if files else "single", "k": k})
         projects += sweep_projects(rng, len(projects), a.tier)
         projects += type_sweep_projects(rng, len(projects), a.tier)
         projects += annotation_sweep_projects(rng, len(projects), a.tier)
+        projects += param_sweep_projects(rng, len(projects), a.tier)
     base = {
         "commonConfig": {"controllerGlobs": ["./hctl/*.go"]},
         "routesConfig": {"engine": "gin", "outputPath": "./dist/routes.go", "outputFilePerms": "0644", "packageName": "routes",
@@ -383,10 +524,12 @@ def main():
         root = os.path.join(moddir, "p%d" % k)
         os.makedirs(os.path.join(root, "hctl"), exist_ok=True)
         open(os.path.join(root, "hctl", "c.go"), "w").write(pr["source"])
+        for fn, text in sorted((pr.get("files") or {}).items()):
+            open(os.path.join(root, "hctl", os.path.basename(fn)), "w").write(text)
         if "config" not in pr:
             b = json.loads(json.dumps(base))
             b["routesConfig"]["engine"] = rng.choice(["gin", "echo", "mux", "chi", "fiber"])
-            b["openapiGeneratorConfig"]["openapi"] = rng.choice(["3.0.0", "3.1.0"])
+            b["openapiGeneratorConfig"]["openapi"] = pr.get("openapi") or rng.choice(["3.0.0", "3.1.0"])
             if pr.get("force_valid_config"):
                 pr["config"] = json.dumps(b, indent=1)
             else:
@@ -397,7 +540,7 @@ def main():
     p = run(["go", "vet", "./..."], cwd=moddir, env=GOENV, check=False, timeout=900)
     bad_pkgs = set(re.findall(r"verifproj/p(\d+)/hctl", p.stderr.decode(errors="replace") + p.stdout.decode(errors="replace")))
     for ln in (p.stderr.decode(errors="replace") + p.stdout.decode(errors="replace")).splitlines():
-        m = re.match(r"(?:# )?(?:verifproj/)?p(\d+)/hctl|^p(\d+)/hctl/c\.go", ln.strip())
+        m = re.match(r"(?:# )?(?:verifproj/)?p(\d+)/hctl|^p(\d+)/hctl/\w+\.go", ln.strip())
         if m:
             bad_pkgs.add(m.group(1) or m.group(2))
     jobs, idx = [], []
@@ -427,7 +570,12 @@ def main():
     out = run_coq_file(PROP, "cases", body)
     propfail = parse_nat_list(out, "propfail")
     reported = 0
-    for i in propfail:
+
+    def size(i):
+        pr = projects[outcomes[i][0]] if outcomes[i][0] >= 0 else {}
+        return len(pr.get("source", "")) + sum(len(t) for t in (pr.get("files") or {}).values())
+
+    for i in sorted(propfail, key=size):  # the smallest projects (the sweeps: one hostile element each) are reported first
         k, c, r = outcomes[i]
         pr = projects[k] if k >= 0 else {"source": "", "config": "", "command": ["version"]}
         sig = crash_signature(r["out"])
@@ -441,6 +589,22 @@ def main():
         if reported >= 3:
             continue
         reported += 1
+        if pr.get("files") and c in ("crash", "silent-failure"):
+            # shrink: the same declarations in ONE file - keep the other files only if they are needed
+            d = os.path.join(moddir, "shrink")
+            shutil.rmtree(d, ignore_errors=True)
+            os.makedirs(os.path.join(d, "hctl"))
+            merged = pr["source"].rstrip("\n") + "\n\n" + "\n".join(
+                re.sub(r"\Apackage hctl\n+(import \([^)]*\)\n+)?", "", t) for _, t in sorted(pr["files"].items()))
+            if '"time"' not in pr["source"] and re.search(r"(?<![A-Za-z])time\.", merged):
+                merged = None
+            if merged:
+                open(os.path.join(d, "hctl", "c.go"), "w").write(merged)
+                open(os.path.join(d, "gleece.config.json"), "w").write(pr["config"])
+                r1 = P.run_cli_one({"dir": d, "args": pr["command"] + ["-c", "gleece.config.json"], "timeout": TIMEOUT})
+                if classify(r1) == c and crash_signature(r1["out"]) == crash_signature(r["out"]):
+                    pr, r = dict(pr, source=merged, files={}, layout="single"), r1
+        sig = crash_signature(r["out"])
         if pr.get("sweep") and len(pr["sweep"]) > 1:
             # shrink: find one field that alone reproduces the same outcome class
             for fld in pr["sweep"]:
@@ -457,20 +621,29 @@ def main():
                     sig = crash_signature(r["out"])
                     break
         res.violation({"kind": "property-fails-on-implementation", "class": c, "signature": sig,
-                       "input": {"source": pr["source"], "config": pr["config"], "command": pr["command"]},
+                       "input": {"source": pr["source"], "files": pr.get("files") or {}, "config": pr["config"],
+                                 "command": pr["command"]},
+                       "shape": dict((f, pr[f]) for f in ("layout", "single_use", "single_annotation", "param_sweep") if f in pr),
                        "cli_exit": r["exit"], "cli_output": r["out"][-3000:], "wall_s": r["wall"],
                        "claim": "the command exits 0 or exits non-zero with a message; it never panics or hangs"})
     res.coverage.update({
-        "evaluations": len(jobs), "distinct_nontrivial": len(set(projects[k]["source"] for k in idx if k >= 0)),
+        "evaluations": len(jobs), "distinct_nontrivial": len(set(projects[k]["source"] + json.dumps(projects[k].get("files") or {}, sort_keys=True)
+                                                                for k in idx if k >= 0)),
         "rule": "seeded hostile but compilable projects (generics with declared arguments, inline structs, funcs, "
                 "channels, interfaces, fixed arrays, non-string map keys, mutually and self recursive types, enums of "
-                "every kind, alias chains, custom/invalid error types, odd signatures), malformed annotation lines, "
+                "every kind, alias chains, custom/invalid error types, odd signatures, generic structs with embedded / "
+                "unexported / json:\"-\" fields around the parameter-typed field, fixed arrays sized by named constants), "
+                "the package laid out in one file, in controller + declarations, or one file per declaration; malformed "
+                "and doubly-wrong annotation lines added to or replacing the annotation of the same name, "
                 "arbitrary validator tags and hostile configuration documents; one CLI command each (spec, routes, "
                 "spec-and-routes, dump graph dot/plain, version) with a %d s limit; distinct = distinct sources" % TIMEOUT,
         "samples": [{"command": projects[idx[0]]["command"], "config_kind": projects[idx[0]].get("config_kind"),
                      "source": projects[idx[0]]["source"][:1500], "class": outcomes[0][1]}] if idx and idx[0] >= 0 else [],
         "property_oracle_failures": len(propfail),
-        "input_distribution": {"projects": len(projects), "not_compilable_skipped": len(bad_pkgs), "outcome_classes": classes,
+        "input_distribution": {"projects": len(projects),
+                               "layouts": {l: sum(1 for pr in projects if pr.get("layout", "single") == l) for l in LAYOUTS},
+                               "annotation_modes": {m: sum(1 for pr in projects if (pr.get("single_annotation") or [0, 0, 0])[2] == m)
+                                                    for m in ("add", "replace")}, "not_compilable_skipped": len(bad_pkgs), "outcome_classes": classes,
                                "config_kinds": {kd: sum(1 for pr in projects if pr.get("config_kind") == kd)
                                                 for kd in set(pr.get("config_kind") for pr in projects)},
                                "max_wall_s": round(max(r["wall"] for _, _, r in outcomes), 2)},
